@@ -127,6 +127,58 @@ def fresh_pred(lines):
     return (not bad, f"process-lifetime dependence: {bad[:3]}")
 
 
+def hash_function_history_pred(order):
+    """hash_to_G2 / expand_message_xmd with the same (message, tag) and DIFFERENT hash functions, in the given order, in a fresh
+    interpreter each time: every answer must equal the answer of a single fresh call"""
+    prog = ("import sys, json, hashlib; sys.path.insert(0, %r); sys.path.insert(0, %r); import pyexec\n"
+            "from py_ecc.bls.hash_to_curve import hash_to_G2\nfrom py_ecc.bls.hash import expand_message_xmd\n"
+            "out = {}\n"
+            "for h in json.load(sys.stdin):\n"
+            "    f = getattr(hashlib, h)\n"
+            "    out[h] = [pyexec.show_p3(hash_to_G2(b'msg', b'tag', f)), expand_message_xmd(b'msg', b'tag', 96, f).hex()]\n"
+            "print(json.dumps(out))\n" % (os.path.join(VERIF, "tools", "harness"), os.environ.get("VERIF_REPO", "/repo")))
+
+    def run(hs):
+        r = subprocess.run([sys.executable, "-c", prog], input=json.dumps(hs), capture_output=True, text=True, timeout=1200)
+        return json.loads(r.stdout) if r.returncode == 0 else {"error": r.stderr[-300:]}
+    together = run(list(order))
+    bad = []
+    for h in order:
+        alone = run([h])
+        if together.get(h) != alone.get(h):
+            bad.append(f"{h} differs when called after {list(order)[:list(order).index(h)]}")
+    return (not bad, f"hash-function history {order}: {bad}")
+
+
+def subclass_history_pred(parent_first):
+    """an ad-hoc small-field class DERIVED from a library field class: results must not depend on whether the parent class
+    was used before (two fresh interpreters)"""
+    prog = ("import sys, json; sys.path.insert(0, %r); sys.path.insert(0, %r)\n"
+            "from py_ecc.fields import bn128_FQ2, optimized_bn128_FQ2, bls12_381_FQ12\n"
+            "first = json.load(sys.stdin)\n"
+            "if first: bn128_FQ2([3, 4]) * bn128_FQ2([5, 6]); optimized_bn128_FQ2([3, 4]) * optimized_bn128_FQ2([5, 6]); bls12_381_FQ12([1] * 12) * bls12_381_FQ12([2] * 12)\n"
+            "class A(bn128_FQ2): field_modulus = 19\n"
+            "class B(optimized_bn128_FQ2): field_modulus = 19\n"
+            "class C(bls12_381_FQ12): field_modulus = 7\n"
+            "r = []\n"
+            "for K, d in ((A, 2), (B, 2), (C, 12)):\n"
+            "    x, y = K(list(range(3, 3 + d))), K(list(range(5, 5 + d)))\n"
+            "    r.append([[int(c) for c in (x * y).coeffs], [int(c) for c in (x + y).coeffs], [int(c) for c in (x / y).coeffs]])\n"
+            "print(json.dumps(r))\n" % (os.path.join(VERIF, "tools", "harness"), os.environ.get("VERIF_REPO", "/repo")))
+
+    def run(first):
+        r = subprocess.run([sys.executable, "-c", prog], input=json.dumps(first), capture_output=True, text=True, timeout=600)
+        return r.stdout.strip() if r.returncode == 0 else "error: " + r.stderr[-300:]
+    a, b = run(True), run(False)
+    ok = a == b and not a.startswith("error")
+    # all coefficients must be reduced modulo the SUBCLASS modulus
+    if ok:
+        vals = json.loads(a)
+        mods = (19, 19, 7)
+        ok = all(0 <= c < m for trip, m in zip(vals, mods) for lst in trip for c in lst)
+    return (ok, f"ad-hoc field subclass derived from a library class: with parent used first -> {a[:80]}, without -> {b[:80]}")
+
+
 def _val(x):
     """deep VALUE of an argument (integer coefficients, not __dict__)"""
     if hasattr(x, "coeffs"):
@@ -225,6 +277,9 @@ def predicates(rng, tier, only=None):
         ps.append(Pred("history-independence", history_pred, ([c.key() for c in h], rng.randrange(1 << 30))))
     for h in hs[: (2 if tier == "quick" else 10)]:
         ps.append(Pred("fresh-interpreter", fresh_pred, ([c.key() for c in h],)))
+    ps.append(Pred("fresh-interpreter", hash_function_history_pred, (("sha256", "sha512", "sha3_256"),)))
+    ps.append(Pred("fresh-interpreter", hash_function_history_pred, (("sha512", "sha384", "blake2b", "sha256"),)))
+    ps.append(Pred("fresh-interpreter", subclass_history_pred, (True,)))
     for name, th in _arg_thunks(rng):
         ps.append(Pred("arguments-unchanged", args_pred, (name, th)))
     if only:
